@@ -130,6 +130,7 @@ Bin(t, op, a, b) ==
           [] op = "/"  -> IF b = 0 THEN Panic ELSE Wrap(t, TQsmall(a, b))
           [] op = "%"  -> IF b = 0 THEN Panic ELSE Wrap(t, a - b * TQsmall(a, b))
           [] op = "&"  -> Wrap(t, U8(a) & U8(b))
+          [] op = "&^" -> Wrap(t, U8(a) & (255 - U8(b)))
           [] op = "|"  -> Wrap(t, U8(a) | U8(b))
           [] op = "^"  -> Wrap(t, U8(a) ^^ U8(b))
           [] op = "<<" -> IF b >= 8 THEN 0 ELSE Wrap(t, U8(a) * Pow2(b))
@@ -142,6 +143,7 @@ Bin(t, op, a, b) ==
           [] op = "/"  -> IF b = 0 THEN Panic ELSE IF t = "int32" THEN Quo32(a, b) ELSE UQuo32(a, b)
           [] op = "%"  -> IF b = 0 THEN Panic ELSE IF t = "int32" THEN Rem32(a, b) ELSE URem32(a, b)
           [] op = "&"  -> And32(a, b)
+          [] op = "&^" -> And32(a, Xor32(b, -1))
           [] op = "|"  -> Or32(a, b)
           [] op = "^"  -> Xor32(a, b)
           [] op = "<<" -> IF t = "uint32" /\ b < 0 THEN 0 ELSE Shl32(a, b)
